@@ -137,6 +137,10 @@ def rule_true_implies_eq(ctx):
                             decoded = True
                         elif x[0] == 'deref' and y == enc:
                             cand = x[1]
+                        elif x[0] == 'call' and x[1].endswith('::Decode') and len(x[2]) == 1 and x[2][0][0] == 'index' and _sc(x[2][0][1]) == ('field', 'data', ('this',)) and y == par:
+                            # the decoded element at *some index* of the container equal to p is a stored point equal to p (that the
+                            # index is inside the container is C17's obligation, that it is the right one FALSE-IMPLIES-ABSENT's and KIND's)
+                            eq_atoms.append(a)
                         if cand is not None:
                             k = kinds.kind_of_term(cand) or kinds.kind_of_term(resolve_calls(f.unit, cand))
                             if k and k[0] == 'FIRST_GE' and k[1] in (enc, resolve_calls(f.unit, enc)):
